@@ -205,6 +205,8 @@ type Recorder struct {
 	// optional hook run at every event (e.g. runtime.GC)
 	Hook func()
 	n    int
+	// events not recorded because maxRecorded was reached
+	Dropped int
 	// strings received BY VALUE are kept (a visitor may keep them: Go strings are immutable) and compared
 	// with what was recorded at the callback once the call under test has returned
 	held []heldStr
@@ -253,6 +255,7 @@ func (r *Recorder) add(e Event) error {
 	// a few bytes of UBJSON can announce 2^31 payload-free elements: such a run ends at the deadline, and what it
 	// delivered until then must not become a trace line of hundreds of megabytes
 	if len(r.Events) >= maxRecorded {
+		r.Dropped++
 		return nil
 	}
 	r.Events = append(r.Events, e)
